@@ -116,7 +116,13 @@ void collect_all_heaps(bool force) {
   for (size_t i = 0; i < H.heaps.size(); i++) { MHeap& m = H.heaps[i]; if (m.alive && m.prog == T->prog && m.kind != HK_BACKING && m.h) { sched_call_begin(); mi_heap_collect(m.h, force); } }
   sched_call_begin(); mi_collect(force);
 }
-void verify_all_live(const char* when) { for (auto& kv : H.live) block_verify(kv.second, when); }
+// the usable size of a live block is a constant of the block (whatever happens to its page in the meantime: queue moves, abandonment,
+// adoption by another thread): the pointer keeps being treated as what it is, also when it points into the interior of an over-allocated block
+void usable_verify(Block* b, const char* when) {
+  sched_set_passthrough(true); const size_t us = mi_usable_size(b->p); sched_set_passthrough(false);
+  if (us != b->usable) sim_violation("usable_size", "mi_usable_size(%p) of live block #%llu (requested %zu, alignment %zu, allocated by thread %d) is %zu %s but was %zu when the block was allocated", (void*)b->p, (unsigned long long)b->id, b->req, b->align, b->prog, us, when, b->usable);
+}
+void verify_all_live(const char* when) { size_t n = 0; for (auto& kv : H.live) { block_verify(kv.second, when); if (n++ < 4000) usable_verify(kv.second, when); } }
 
 // ---------------------------------------------------------------------------------
 // error / output callbacks
@@ -346,6 +352,7 @@ static void do_free(const Op& op) {
   if (op.flags & OPF_WAIT) sched_notify(0x51070000ull + (uint64_t)op.slot);
   // a block must be released within its own sub-process' threads? (no: any thread may free); verify contents first
   block_verify(b, "at free");
+  usable_verify(b, "at free");
   model_remove(b);
   if (b->heap == -1) H.orphan_frees++;
   if (b->orphan_kind >= 2 && b->prog == T->prog) snprintf(T->note, sizeof T->note, " while thread %d releases block #%llu whose page was orphaned by mi_heap_delete of a %s heap", T->prog, (unsigned long long)b->id, b->orphan_kind == 2 ? "tagged" : "arena-bound");
